@@ -182,6 +182,13 @@ func c14RunStatus(rep *vh.Report, srv *Server, a *vref.VAsset, asset string, v, 
 	if start > 0 {
 		parts = append(parts, fmt.Sprintf("start_%d", start))
 	}
+	// representations the pattern must treat like any other: subtitles and thumbnails of the asset, generated subtitles
+	type extraT struct{ id, tmpl string }
+	var extras []extraT
+	if asset == "testpic_2s" && !byTime {
+		parts = append(parts, "timesubsstpp_en")
+		extras = []extraT{{"imsc1_txt_sv", "imsc1_txt_sv/%d.m4s"}, {"thumbs", "thumbs/%d.jpg"}, {"timestpp-en", "timestpp-en/%d.m4s"}}
+	}
 	parts = append(parts, "statuscode_["+strings.Join(ps, ",")+"]")
 	prefix := vCfgPrefix(parts...)
 	startNr := int64(0)
@@ -248,6 +255,32 @@ func c14RunStatus(rep *vh.Report, srv *Server, a *vref.VAsset, asset string, v, 
 				}
 				rep.Violate("C14.status", sig, fmt.Sprintf("%s start=%d snr=%d patterns=%s: segment index %d of %s answered %d %q, reference says %v",
 					asset, start, snr, strings.Join(ps, ","), n, r.ID, resp.Code, vTrim(resp.Body), w), map[string]any{"url": url})
+			}
+		}
+	}
+	for n := int64(0); len(extras) > 0 && v.LiveStart(n) < horizonTicks; n++ {
+		for _, x := range extras {
+			now := start*1000 + vref.TicksToMSCeil(v.LiveEnd(n), v.TS) + 1
+			url := fmt.Sprintf("%s/%s/%s?nowMS=%d", prefix, asset, fmt.Sprintf(x.tmpl, startNr+n), now)
+			resp := vGet(srv, url)
+			rep.AddStates(1)
+			rep.AddExecs(1)
+			want := c14Expected(pats, v, n, x.id, 0, 0)
+			rep.Hit("C14.status")
+			if !want[resp.Code] {
+				kind := "missed"
+				if resp.Code != 200 {
+					kind = "spurious"
+					if !want[200] {
+						kind = "wrong-code"
+					}
+				}
+				sig := fmt.Sprintf("%s:%s:nr", kind, x.id)
+				if resp.vCrashed() {
+					site, _ := vPanicSite(srv.livesimHandlerFunc, "GET", url, nil)
+					sig = "panic:" + site
+				}
+				rep.Violate("C14.status", sig, fmt.Sprintf("%s start=%d snr=%d patterns=%s: segment index %d of %s answered %d %q", asset, start, snr, strings.Join(ps, ","), n, x.id, resp.Code, vTrim(resp.Body)), map[string]any{"url": url})
 			}
 		}
 	}
